@@ -5,6 +5,7 @@
 * contig   — exactly-sized C-contiguous arrays (under ASan the first out-of-region byte is a red zone)
 * embedded — interior slices of larger parents filled with NaN-payload sentinels
 * strided  — every second element of a larger parent along each axis (non-contiguous strides)
+* mixed    — every array of the call draws one of the three on its own (arguments of one call differ in strides)
 
 ``audit(case, ...)`` snapshots everything, calls the real kernel, and checks: inputs bit-identical,
 outputs equal to the closed form on the documented region (noise-floor tolerance), bit-identical
@@ -28,13 +29,18 @@ class Arrays:
     # -- raw allocation -----------------------------------------------------------------------------
     def _alloc(self, shape, dtype):
         shape = tuple(int(n) for n in shape)
-        if self.layout == "contig" or len(shape) == 0:
+        layout = self.layout
+        if layout == "mixed":
+            # every array of the call draws its OWN layout: result and operands then differ in strides (a kernel that indexes all of
+            # its arguments with the strides of the first one is only wrong - and writes out of bounds - in this case)
+            layout = ("contig", "embedded", "strided")[int(self.rng.integers(3))]
+        if layout == "contig" or len(shape) == 0:
             return np.empty(shape, dtype)
-        if self.layout == "embedded":
+        if layout == "embedded":
             pad = 2
             parent = self._sentinels(tuple(n + 2 * pad for n in shape), dtype)
             sl = tuple(slice(pad, pad + n) for n in shape)
-        elif self.layout == "strided":
+        elif layout == "strided":
             parent = self._sentinels(tuple(2 * n + 1 for n in shape), dtype)
             sl = tuple(slice(1, 2 * n + 1, 2) for n in shape)
         else:
